@@ -697,11 +697,10 @@ theorem remove_core (U c1 p1 ref p2 c2 W : Str)
                   subst this; exact clsOf_cls
             rw [hcls]
             rcases hq0' with e | e <;> subst e <;> rfl
-      · -- no comma before the reference: the blanks stay, c2 goes
+      · -- no comma before the reference (start of the text): blanks and c2 go
         have hcm' : c1.contains ',' = false := by
           simpa [List.contains_iff_mem] using hcm
-        simp only [hcm', if_false, Bool.false_eq_true]
-        apply chain_append_intro (run_ws c1 q0 (isC_noComma_ws c1 hc1 hcm))
+        simp only [hcm', if_false, Bool.false_eq_true, List.nil_append]
         have e1 : q1 = q0 := by
           rcases f1 with ⟨e, _⟩ | ⟨_, hm, _⟩
           · exact e
@@ -988,7 +987,7 @@ blank in front of a leading reference makes the remover keep the comma after it.
 theorem old_leading_blank_counterexample :
     delimOk " {c},R".toList = true ∧ wholeTag [' '] ",R".toList ∧
     replaceRefOld " {c},R".toList ['c'] NA = ",R".toList ∧ delimOk ",R".toList = false ∧
-    replaceRef " {c},R".toList ['c'] NA = " R".toList := by decide +kernel
+    replaceRef " {c},R".toList ['c'] NA = "R".toList := by decide +kernel
 
 /-- Unchanged code, defect 3 (design probe #19): the reference is spliced into the pattern unescaped,
 so `{1}` is a quantifier: the reference is never matched, every separator is, and `{0}` makes the group
